@@ -8,8 +8,8 @@ const trusted = "Trusted base: go/types, go/ssa and the CHA/VTA call graphs of g
 func init() {
 	property(&Property{
 		ID:      "C07",
-		Rules:   []string{"ET-1", "ET-2", "ET-3"},
-		Explain: "Decides the structural clauses of C07 on the current tree: (ET) every errors.Format call site passes exactly as many arguments as its template has verbs, every ErrorCode used bare as an error value has a zero-verb template, every declared code has a template (this is the last sentence of the property, decided completely over all construction sites).",
+		Rules:   []string{"ET-1", "ET-2", "ET-3", "SX-crash-json", "SX-crash-schema", "SX-crash-enum", "SX-crash-schema-deep"},
+		Explain: "Decides the structural clauses of C07 on the current tree: (ET) every errors.Format call site passes exactly as many arguments as its template has verbs, every ErrorCode used bare as an error value has a zero-verb template, every declared code has a template (the last sentence of the property, decided completely over all construction sites). (SX-crash) the transition relation of each of the three byte scanners is extracted from its Next() method by abstract interpretation of the SSA and explored breadth-first over every reachable abstract state (bounded stack depth / node cap) x all 256 byte values x end of input, following look-ahead reads with every possible following byte and with the input ending inside the look-ahead window: no transition may fail with anything but a positioned library error (no index out of range, no assertion panic, no unstructured error).",
 		Assume: []string{
 			"termination of the API calls is not decided",
 			"implicit run-time panics other than the modelled index reads (nil dereference, unchecked type assertions) are not decided",
@@ -20,8 +20,8 @@ func init() {
 		DesignRef: "DESIGN.md §3 ET, §4 C07",
 	})
 	property(&Property{
-		ID:    "C05",
-		Rules: []string{"SA-J", "SA-JT", "SA-J3", "SA-JT3"},
+		ID:      "C05",
+		Rules:   []string{"SA-J", "SA-JT", "SA-J3", "SA-JT3"},
 		Explain: "The transition relation of the formats/json scanner is extracted from its own Next() method by abstract interpretation of the SSA (scanner object tracked exactly, one input byte at a time, positions symbolic) and compared, by breadth-first product construction, with a reference RFC 8259 byte transducer: in every reachable state pair up to the nesting bound (2 quick, 4 thorough), for each of the 256 byte values and for end of input, the scanner rejects iff the reference rejects, accepts end of input iff the reference does (including the empty-document rule of Document.check), in strict mode and with AllowTrailingNonSpaceCharacters. Literal tokens (strings, numbers, true/false/null) are unbounded in length: their automaton states are merged, so the token language is decided for all lengths.",
 		Assume: []string{
 			"nesting deeper than the bound is not explored (the scanner inspects only the top two stack entries)",
@@ -34,8 +34,8 @@ func init() {
 		DesignRef: "DESIGN.md §3 SA, §4 C05",
 	})
 	property(&Property{
-		ID:    "C06",
-		Rules: []string{"SA-J", "SA-S", "SA-E", "SA-J3"},
+		ID:      "C06",
+		Rules:   []string{"SA-J", "SA-S", "SA-E", "SA-J3"},
 		Explain: "Same product as C05, comparing in addition the lexical events: on every byte and at end of input the formats/json scanner model must emit exactly the events of the reference transducer (types, order, and spans written relative to the consumed byte and to the begin offsets of the open events): literal/key spans = the source token, container spans from opening to closing bracket, wrappers closed on the first byte after the value. SA-S / SA-E run the same product against the schema scanner and the enum-rule scanner restricted to plain JSON input: every byte the reference accepts must be accepted with the same events (new-line events dropped; exponents, and for enum rules non-array roots and nested containers, are documented deviations; duplicate detection of the enum scanner abstracted).",
 		Assume: []string{
 			"rebuilding the JSON value from the events is not decided (content is symbolic)",
@@ -47,7 +47,33 @@ func init() {
 		Note:      trusted,
 		DesignRef: "DESIGN.md §3 SA, §4 C06",
 	})
-	for _, id := range []string{"C01", "C02", "C03", "C04", "C08", "C09", "C10", "C11", "C12", "C13", "C15", "C16", "C17", "C18", "C19"} {
+	property(&Property{
+		ID:    "C13",
+		Rules: []string{"SX-nl-schema", "SX-nl-enum", "SX-sp-schema", "SX-sp-enum"},
+		Explain: "Over the automaton extracted from the schema scanner and the enum-rule scanner (abstract interpretation of Next(), every reachable abstract state up to the stack bound / node cap): LF and CR have identical effect in every state (verdict, events with spans, successor state), so LF, CR and CRLF spellings scan alike; space and tab have identical effect in every state outside content states (string bodies, annotation/comment text, bare rule names — listed with reasons), so indentation style does not change the scan.",
+		Assume: []string{
+			"comment placement, inline versus multi-line annotation equivalence, quoted versus bare rule names, rule order and escape normalisation are not decided by these rules",
+			"the schema scanner's state space is explored breadth-first up to a node cap (5000 states quick)",
+		},
+		Technique: "static analysis: scanner automaton extraction by abstract interpretation of go/ssa + byte-class symmetry check over all reachable abstract states",
+		Level:     "Byte-class symmetry (CR≡LF everywhere, SP≡TAB outside content states) of the extracted scanner automata, exhaustive over the explored abstract states: a necessary condition of invariance under line-end and indentation re-spelling.",
+		Note:      trusted,
+		DesignRef: "DESIGN.md §3 SA-5, §4 C13",
+	})
+	property(&Property{
+		ID:    "C17",
+		Rules: []string{"SX-pos-json", "SX-pos-schema", "SX-pos-enum"},
+		Explain: "Over the automata extracted from the three scanners: every rejecting transition (any byte in any reachable abstract state, and end of input) produces a DocumentError on which SetIndex was called and whose index is the offset of the byte just consumed (the last byte of the input when it ends early) — the position is symbolic in the model, so this holds for all inputs reaching the state.",
+		Assume: []string{
+			"that the rejecting byte is the *first* byte that cannot continue the text follows from C05's language equivalence for JSON documents only",
+			"validator/loader error positions and the line/caret renderer are not covered by these rules",
+		},
+		Technique: "static analysis: scanner automaton extraction by abstract interpretation of go/ssa; symbolic error positions compared with the consumed byte on every rejecting transition",
+		Level:     "Typestate/position check on every rejecting transition of the extracted scanner automata (exhaustive over explored abstract states): a structural necessary condition of the first sentence of the property.",
+		Note:      trusted,
+		DesignRef: "DESIGN.md §3 PS-1, §4 C17",
+	})
+	for _, id := range []string{"C01", "C02", "C03", "C04", "C08", "C09", "C10", "C11", "C12", "C15", "C16", "C18", "C19"} {
 		NotApplicable[id] = "engine for this property's structural clauses not finished yet (see DESIGN.md §4); not claimed until its rules run"
 	}
 	NotApplicable["C14"] = "an arithmetic relation between a returned length and acceptance of a prefix over all inputs; no clause has a structural form that is a genuine necessary condition and survives behaviour-preserving edits (DESIGN.md §4 C14)"
